@@ -294,6 +294,8 @@ where
         // The entire purpose of that OnceLock is to ensure this Arc::new() happens
         // when the current thread is executing in the correct memory region, to place
         // the regional state of every region in that specific region.
+        #[cfg(folo_verif)]
+        crate::verif_hook::point("rl.slot.get_or_init");
         let regional_state = slot.get_or_init(|| Arc::new(RegionalState::new()));
 
         f(regional_state)
@@ -355,6 +357,8 @@ where
     where
         F: FnOnce(&T) -> R,
     {
+        #[cfg(folo_verif)]
+        crate::verif_hook::point("rl.region.load");
         let reader = self.value.load();
 
         if let Some(ref value) = *reader
@@ -375,6 +379,8 @@ where
         // and wait for them to finish before we do anything.
 
         loop {
+            #[cfg(folo_verif)]
+            crate::verif_hook::point("rl.init.load");
             let reader = self.value.load();
 
             if let Some(ref value) = *reader {
@@ -382,6 +388,10 @@ where
 
                 if let RegionalValue::Initializing(manual_reset_event) = &**value {
                     // We are waiting for someone else to finish initializing.
+                    #[cfg(folo_verif)]
+                    crate::verif_hook::block_until("rl.init.wait", &mut || {
+                        manual_reset_event.wait0()
+                    });
                     manual_reset_event.wait();
                 }
 
@@ -393,6 +403,8 @@ where
             let attempt_signal = Arc::new(ManualResetEvent::new(EventState::Unset));
             let attempt = RegionalValue::<T>::Initializing(Arc::clone(&attempt_signal));
 
+            #[cfg(folo_verif)]
+            crate::verif_hook::point("rl.init.cas");
             let previous_value = self.value.compare_and_swap(reader, Some(Arc::new(attempt)));
 
             if !previous_value.is_none() {
@@ -412,9 +424,13 @@ where
             });
 
             let new_value = RegionalValue::Ready(initializer());
+            #[cfg(folo_verif)]
+            crate::verif_hook::point("rl.init.store");
             self.value.store(Some(Arc::new(new_value)));
 
             // We are done initializing. Notify all waiters that they can continue.
+            #[cfg(folo_verif)]
+            crate::verif_hook::point("rl.init.signal");
             attempt_signal.set();
 
             // Disarm the cleanup guard since initialization succeeded.
@@ -428,6 +444,8 @@ where
     // constantly resetting the value, so the conflict resolver will never finish.
     #[cfg_attr(test, mutants::skip)]
     fn set(&self, value: T) {
+        #[cfg(folo_verif)]
+        crate::verif_hook::point("rl.set.store");
         self.value
             .store(Some(Arc::new(RegionalValue::Ready(value))));
     }
